@@ -317,7 +317,9 @@ def wrappers_multiphase_feed(w, cfg):
 
 
 def vof_configs(tier):
-    fams = [('P3', 'ls', 'V', None), ('P3', 'gls', 'TP', 'gl')]
+    # feeds that hold material in a phase that takes no part in the vapour-liquid equilibrium: a solid, or a second liquid 'L' (the
+    # latter added after seeded change C20_8)
+    fams = [('P3', 'ls', 'V', None), ('P3', 'gls', 'TP', 'gl'), ('P3', 'Ll', 'V', None), ('P3', 'Ll', 'TP', 'gl')]
     if tier != 'quick':
         fams += [('P2', 'ls', 'Q', 'gl'), ('P3', 's', 'V', None), ('P3', 'gls', 'V', None)]
     return [{'name': f'vle;pkg={p};feed={fk};spec={spec};multi_stream={ms};calls=1', 'what': 'vle', 'pkg': p, 'fk': fk, 'spec': spec,
@@ -871,7 +873,7 @@ W.preload([P6])
 def prn_configs(tier):
     rng = random.Random(7 + int(os.environ.get('VERIF_SEED', '0')))
     out = []
-    per = 4 if tier == 'quick' else 24
+    per = 24 if tier == 'quick' else 96        # (a run costs milliseconds; 4 per size missed the forced-chemical x one-sided-K combinations)
     for n_eq in range(1, 7):
         for k in range(per):
             n_top = rng.choice([0, 0, 1, 2]) if n_eq <= 4 else (rng.choice([0, 1]) if n_eq == 5 else 0)
@@ -899,7 +901,7 @@ def prn_configs(tier):
                   'thermosteam.equilibrium.binary_phase_fraction:as_valid_fraction'],
        notes='real Rachford-Rice solver (flexsolve), 6-chemical package, 1..6 chemicals in equilibrium, 0-2 forced to the top and '
              '0-1 to the bottom, pseudo-random (VERIF_SEED) K in 1e-3..1e3 (whole range / near 1 / all below 1 / all above 1), '
-             'feeds 0 or 1e-2..1e2 kmol/hr per chemical; outlets start with 10 kmol/hr of every chemical; 4 (thorough: 24) cases per '
+             'feeds 0 or 1e-2..1e2 kmol/hr per chemical; outlets start with 10 kmol/hr of every chemical; 24 (thorough: 96) cases per '
              'number of chemicals; achieved K compared with relative tolerance 1e-6 / (phi (1 - phi))')
 def partition_real_solver_1to6(w, cfg):
     W.reset_caches()
@@ -923,17 +925,20 @@ def partition_real_solver_1to6(w, cfg):
             return
     t, b = _tot(top), _tot(bottom)
     cas = {i: W.chemical(i).CAS for i in P6}
-    if 0. < phi < 1.:
+    both_outlets = (sum(t[cas[i]] for i in list(IDs) + cfg['tc']) > 0. and sum(b[cas[i]] for i in list(IDs) + cfg['bc']) > 0.)
+    if 0. < phi < 1. or both_outlets:
+        # (second disjunct added after seeded change C20_7: a chemical forced into one outlet makes that outlet non-empty, so a
+        # reported phase fraction of exactly 0 or 1 with material in both outlets still has to reproduce K)
         # a solved two-phase split: with mole fractions over the chemicals of the call (equilibrium + forced) the common
         # factor is 1, i.e. y_k / x_k = K_k (the bracketing solver may stop with an error of 5e-7 in phi, which is a relative
         # error of 5e-7 / (phi (1 - phi)) in the ratio of the outlet totals: tolerance 1e-6 / (phi (1 - phi)))
         T_all = w.total([t[cas[i]] for i in list(IDs) + cfg['tc']])
         B_all = w.total([b[cas[i]] for i in list(IDs) + cfg['bc']])
         for i, k in zip(IDs, cfg['K']):
-            if t[cas[i]] > 0. and b[cas[i]] > 0.:
-                ka = (t[cas[i]] / T_all) / (b[cas[i]] / B_all)
+            if (t[cas[i]] > 0. and b[cas[i]] > 0.) or (both_outlets and f[cas[i]] > 0.):
+                ka = (t[cas[i]] / T_all) / (b[cas[i]] / B_all) if b[cas[i]] > 0. else float('inf')
                 w.ensure(f'achieved K[{i}] = given K (mole fractions over the chemicals of the call)',
-                         abs(ka / k - 1.) < 1e-6 / (phi * (1. - phi)), achieved=ka, given=k)
+                         abs(ka / k - 1.) < 1e-6 / max(phi * (1. - phi), 1e-9), achieved=ka, given=k)
     for ID, c in cas.items():
         w.ensure(f'top[{ID}] + bottom[{ID}] = feed', w.eq(t[c] + b[c], f[c]))
     w.ensure('no negative flows', _nonneg(w, top, bottom))
